@@ -65,6 +65,16 @@ CLAIMED = {
             "input/inputs consumption order, multiple files, input_filename, --arg/--argjson/--slurpfile/--rawfile/--args/$ENV, -f, "
             "halt_error. Not covered: terminal detection, colours by environment, Windows.", "7.17",
             "Coq proof (main loop model) + binary/model correspondence + CLI oracles (partial)"),
+    "C03": ("Theorems about the lazy stream model and the interpreter model: whatever follows the items a prefix consumer needs (an "
+            "error, a halt, a break, divergence, more items), the first k items, first, limit(n; _) and the consumer that stops iterating "
+            "after k outputs give the same result; limit is exactly the prefix then the end; label/break ignores what follows the break; "
+            "comma, pipe, try, label and // hand prefixes through construct by construct. Correspondence: ~1900 programs with a marker "
+            "effect after the k-th output (10 stream shapes x error/halt/endless-loop markers x every prefix consumer x all k) against the "
+            "extracted model and the defining equations. Oracles: inputs consumed (harness counter, finite and endless input streams) "
+            "against the definitional count for 56 input programs; endless generators consumed incrementally; time for 2N against N "
+            "outputs; the command line on a pipe that stays open and with a reader that closes early. Partial: input consumption and "
+            "time per output are observed, not proved (the model has no shared input stream).",
+            "7.3", "Coq proof (rest-independence of prefix consumers) + model/implementation correspondence + consumption counters"),
     "C07": ("Theorems: for all 256 bytes and both string kinds the reader undoes the writer's escape in one step; whole text strings "
             "and byte strings of arbitrary bytes (control characters, quotes, DEL, invalid UTF-8) survive print-then-parse. "
             "Correspondence: tojson, tojson|fromjson on exhaustive short strings, floats (edge + random bit patterns), integers of any "
